@@ -93,7 +93,7 @@ def make_field(df, m, emb, carr, names, units, vdims_arg, labels, vmap, real):
         mapping = fld.scramble({labels[c]: names[vmap[c] - 1] for c in range(nv)}, sum(n) + vmap[0])
     else:
         mapping = {}
-    return fld.labelled_field(df, mesh, nv, a, vdims_arg, mapping, sum(n) + nv + (vmap[0] if vmap else 1))
+    return fld.lived(fld.labelled_field(df, mesh, nv, a, vdims_arg, mapping, sum(n) + nv + (vmap[0] if vmap else 1)), sum(n) + 3 * nv)
 
 
 # ------------------------------------------------------------------ names <-> <<prefix count, id>>
